@@ -370,16 +370,28 @@ LeaderReset(i) ==         \* F1: t.result.CompareAndSwap(output, nil); return ni
                  runs, ev, execCnt, execIn, flags>>
 
 (* Execute returned (or panicked).  Deferred release / transfer-back run first. *)
-EndWith(i, ext, xv, xf) ==   \* ext: value and fatal error are given (trace validation of foreign queries)
+(* Execute returned: output.Value, output.Fatal are assigned (or it panicked).  ext: the value and the
+   fatal error are given (trace validation of foreign queries). *)
+ExecRetWith(i, ext, xv, xf) ==
   /\ acts[i].pc = "end"
-  /\ LET a == acts[i] k == a.key p == a.par
+  /\ LET a == acts[i] k == a.key
          panics == ~ext /\ ~a.cerr /\ k \in cfg.pan
-         \* caller.transferFrom(callee) with callee not holding aborts -> panic, recovered as a query panic
-         lost == ~a.async /\ ~a.hold
          rv == IF ext THEN xv ELSE IF a.cerr \/ a.af.t # "none" THEN 0 ELSE Final(a.acc, ver[k])
          rf == IF ext THEN xf ELSE IF a.cerr THEN CancelF ELSE a.af
-         a2 == [a EXCEPT !.hold = FALSE, !.rv = rv, !.rf = rf,
-                         !.pc = IF panics \/ lost THEN (IF "F3" \in Fix THEN "pcancel" ELSE "preset") ELSE "close"]
+     IN acts' = [acts EXCEPT ![i] = [a EXCEPT !.rv = rv, !.rf = rf, !.pc = IF panics THEN "pan" ELSE "ret"]]
+  /\ UNCHANGED <<cfg, step, tasks, res, out, val, fat, rrun, deps, callers, sema, readers, writer, counter,
+                 ver, runs, ev, execCnt, execIn, flags>>
+ExecRet(i) == ExecRetWith(i, FALSE, 0, NoF)
+Panics(a) == ~a.cerr /\ a.key \in cfg.pan
+
+(* The deferred release / transfer-back, which run before the result is published. *)
+End(i) ==
+  /\ acts[i].pc \in {"ret", "pan"}
+  /\ LET a == acts[i] k == a.key p == a.par
+         \* caller.transferFrom(callee) with callee not holding aborts -> panic, recovered as a query panic
+         lost == ~a.async /\ ~a.hold
+         a2 == [a EXCEPT !.hold = FALSE,
+                         !.pc = IF a.pc = "pan" \/ lost THEN (IF "F3" \in Fix THEN "pcancel" ELSE "preset") ELSE "close"]
      IN /\ sema' = IF a.async /\ a.hold THEN sema + 1 ELSE sema
         /\ acts' = IF ~a.async /\ a.hold /\ p \in DOMAIN acts
                    THEN [acts EXCEPT ![i] = a2, ![p].hold = TRUE]
@@ -387,7 +399,6 @@ EndWith(i, ext, xv, xf) ==   \* ext: value and fatal error are given (trace vali
   /\ UNCHANGED <<cfg, step, tasks, res, out, val, fat, rrun, deps, callers, readers, writer, counter,
                  ver, runs, ev, execCnt, execIn, flags>>
 
-End(i) == EndWith(i, FALSE, 0, NoF)
 
 Close(i, drop) ==         \* close(output.done) and hand the result to the caller
   /\ acts[i].pc = "close"
@@ -438,7 +449,7 @@ CheckCycle(i, path) ==    \* BFS over deps as they are now; path = <<>> means no
               \* output.Fatal = err is a write to the SHARED result object: it replaces the Fatal of a
               \* memoised result, and that of a leader whose Execute has returned but which has not closed yet
               ldr == a.o
-              late == out[k] = ldr /\ res[k] = "pending" /\ ldr \in DOMAIN acts /\ acts[ldr].pc = "close"
+              late == out[k] = ldr /\ res[k] = "pending" /\ ldr \in DOMAIN acts /\ acts[ldr].pc \in {"ret", "close"}
               A1 == IF late THEN [acts EXCEPT ![ldr].rf = CycleF(cp)] ELSE acts
           IN
           /\ acts' = Deliver(A1, i, [v |-> IF live THEN val[k] ELSE IF late THEN acts[ldr].rv ELSE 0, f |-> CycleF(cp),
@@ -551,7 +562,7 @@ ActNext(i) ==
   \/ RunEnter(i, counter + 1) \/ RootAcquire(i) \/ StoreEdges(i)
   \/ \E ok \in BOOLEAN : \/ Join(i, ok) \/ Reacquire(i, ok) \/ LeaderAcquire(i, ok) \/ WaitReacquire(i, ok)
                           \/ Start(i, ok) \/ Close(i, ok) \/ Post(i, ok) \/ ReadCause(i, ok)
-  \/ Load(i) \/ Cas(i) \/ Reload(i) \/ End(i) \/ PanicReset(i) \/ PanicCancel(i) \/ LeaderReset(i)
+  \/ Load(i) \/ Cas(i) \/ Reload(i) \/ ExecRet(i) \/ End(i) \/ PanicReset(i) \/ PanicCancel(i) \/ LeaderReset(i)
   \/ WaitRelease(i) \/ WaitReload(i) \/ RunExit1(i) \/ RunExit2(i) \/ RunExit3(i)
   \/ \E why \in {"done", "ctx"} : Wake(i, why)
   \/ (acts[i].pc = "chk" /\
@@ -587,7 +598,7 @@ NoStuckPending == Quiet => \A k \in Nodes : res[k] # "pending"
 (* the executor never trips its own errBadAcquire / errBadRelease checks in a run that is not cancelled *)
 NoAbort == \A i \in DOMAIN acts : LET a == acts[i] IN
   /\ (a.pc = "post" /\ a.nw /\ ~a.hold) => Canc(a.run)
-  /\ (a.pc = "end" /\ ~a.hold) => Canc(a.run)
+  /\ (a.pc \in {"end", "ret", "pan"} /\ ~a.hold) => Canc(a.run)
   /\ (a.pc = "wrel" /\ ~acts[a.par].hold) => Canc(a.run)
   /\ (a.pc = "cas" /\ ~a.async) => acts[a.par].hold
   /\ (a.pc = "rexit" /\ ~a.hold) => Canc(a.run)
